@@ -92,8 +92,8 @@ theorem eq_of_nodup_map_ctx (l : List Parked) (h : (l.map (·.ctx)).Nodup) (a b 
 /-- the one Recv parked on context c leaves and the context's receiveWait flag is cleared -/
 theorem unparkRecv_K (ex : Option Nat) (s : State) (c : Nat) (pr : Parked) (f : Ctx → Ctx)
     (hf : ∀ y, (f y).id = y.id ∧ (f y).closed = y.closed) (hpr : pr ∈ s.parkedRecv) (hc : pr.ctx = c)
-    (dl : List (Nat × Nat × Nat)) (reg : List (Nat × Nat)) (h : K ex s) :
-    K ex (setCtx { s with parkedRecv := s.parkedRecv.filter (fun p => p.call != pr.call), delivered := dl, ctxByID := reg } c f) := by
+    (dl : List (Nat × Nat × Nat)) (reg : List (Nat × Nat)) (df : List Nat) (h : K ex s) :
+    K ex (setCtx { s with parkedRecv := s.parkedRecv.filter (fun p => p.call != pr.call), delivered := dl, ctxByID := reg, deliveredFor := df } c f) := by
   have hsub : (s.parkedRecv.filter (fun p => p.call != pr.call)).Sublist s.parkedRecv := List.filter_sublist
   constructor
   · intro p hp; exact h.rid p (hsub.subset hp)
@@ -109,12 +109,12 @@ theorem unparkRecv_K (ex : Option Nat) (s : State) (c : Nat) (pr : Parked) (f : 
       exact hpc (by rw [this])
     obtain ⟨x, hx, h1, h2, h3⟩ := h.rlive p hp0 hne
     refine ⟨x, ?_, h1, h2, h3⟩
-    have := setCtx_mem { s with parkedRecv := s.parkedRecv.filter (fun p => p.call != pr.call), delivered := dl, ctxByID := reg } c f x hx
+    have := setCtx_mem { s with parkedRecv := s.parkedRecv.filter (fun p => p.call != pr.call), delivered := dl, ctxByID := reg, deliveredFor := df } c f x hx
     have hxc : ¬ x.id = c := by rw [h1]; exact hpctx
     simpa [hxc] using this
   · intro p hp hne
     obtain ⟨x, hx, h1, h2⟩ := h.slive p hp hne
-    refine ⟨_, setCtx_mem { s with parkedRecv := s.parkedRecv.filter (fun p => p.call != pr.call), delivered := dl, ctxByID := reg } c f x hx, ?_⟩
+    refine ⟨_, setCtx_mem { s with parkedRecv := s.parkedRecv.filter (fun p => p.call != pr.call), delivered := dl, ctxByID := reg, deliveredFor := df } c f x hx, ?_⟩
     split
     · exact ⟨(hf x).1.trans h1, (hf x).2.trans h2⟩
     · exact ⟨h1, h2⟩
@@ -132,9 +132,9 @@ theorem wakeRecv_K (ex : Option Nat) (s : State) (c : Nat) (np : Bool) (evs : Li
       · exact h
       · simp only []
         split
-        · exact unparkRecv_K ex s c pr (fun z => { z with receiveWait := false }) (fun z => ⟨rfl, rfl⟩) hmem hctx s.delivered s.ctxByID h
+        · exact unparkRecv_K ex s c pr (fun z => { z with receiveWait := false }) (fun z => ⟨rfl, rfl⟩) hmem hctx s.delivered s.ctxByID s.deliveredFor h
         · split
-          · exact unparkRecv_K ex s c pr (fun z => { z with reqID := 0, repMsg := none, receiveWait := false }) (fun z => ⟨rfl, rfl⟩) hmem hctx _ _ h
+          · exact unparkRecv_K ex s c pr (fun z => { z with reqID := 0, repMsg := none, receiveWait := false }) (fun z => ⟨rfl, rfl⟩) hmem hctx _ _ _ h
           · exact K_sub ex s _ h rfl List.filter_sublist (fun p hp => hp)
 
 theorem wake_K (ex : Option Nat) (s : State) (c : Nat) (h : K ex s) : K ex (wake s c).1 := by
@@ -746,18 +746,18 @@ theorem core_K (s : State) (now : Nat) (op : List String) (hJ : J s) (h : K none
           have hopen : c.closed = false := by
             simp only [Bool.or_eq_true, not_or, Bool.not_eq_true] at hclosed
             exact hclosed.2
-          have h0 : K none { s with nsent := s.nsent + 1 } := K_same none s _ h rfl rfl rfl
+          have h0 : K none { s with nsent := s.nsent + 1, sent := s.sent ++ [(s.nsent + 1, bytesOf b)] } := K_same none s _ h rfl rfl rfl
           have h1 := cancel_K none _ c.id h0
-          have h2 : K none (setCtx { (cancel { s with nsent := s.nsent + 1 } c.id) with sendQ := (cancel { s with nsent := s.nsent + 1 } c.id).sendQ ++ [c.id] } c.id (fun y => { y with reqID := s.nsent + 1, queued := true, sendMsg := some (bytesOf b), sendFor := s.nsent + 1, sendAbort := false })) :=
+          have h2 : K none (setCtx { (cancel { s with nsent := s.nsent + 1, sent := s.sent ++ [(s.nsent + 1, bytesOf b)] } c.id) with sendQ := (cancel { s with nsent := s.nsent + 1, sent := s.sent ++ [(s.nsent + 1, bytesOf b)] } c.id).sendQ ++ [c.id] } c.id (fun y => { y with reqID := s.nsent + 1, queued := true, sendMsg := some (bytesOf b), sendFor := s.nsent + 1, sendAbort := false })) :=
             setCtx_K none _ c.id _ (fun y => ⟨rfl, rfl, rfl⟩) (K_same none _ _ h1 rfl rfl rfl)
           have h3 := wake_K none _ c.id h2
           -- the context is still there and still open
           have hclo : (c.id, false) ∈ clo s := by
             have := mem_clo_of_getCtx s (natOf ctx) c hc
             rw [hopen, ← hcid] at this; exact this
-          have hclo3 : (c.id, false) ∈ clo (wake (setCtx { (cancel { s with nsent := s.nsent + 1 } c.id) with sendQ := (cancel { s with nsent := s.nsent + 1 } c.id).sendQ ++ [c.id] } c.id (fun y => { y with reqID := s.nsent + 1, queued := true, sendMsg := some (bytesOf b), sendFor := s.nsent + 1, sendAbort := false })) c.id).1 := by
+          have hclo3 : (c.id, false) ∈ clo (wake (setCtx { (cancel { s with nsent := s.nsent + 1, sent := s.sent ++ [(s.nsent + 1, bytesOf b)] } c.id) with sendQ := (cancel { s with nsent := s.nsent + 1, sent := s.sent ++ [(s.nsent + 1, bytesOf b)] } c.id).sendQ ++ [c.id] } c.id (fun y => { y with reqID := s.nsent + 1, queued := true, sendMsg := some (bytesOf b), sendFor := s.nsent + 1, sendAbort := false })) c.id).1 := by
             rw [wake_clo]
-            have e1 : clo (setCtx { (cancel { s with nsent := s.nsent + 1 } c.id) with sendQ := (cancel { s with nsent := s.nsent + 1 } c.id).sendQ ++ [c.id] } c.id (fun y => { y with reqID := s.nsent + 1, queued := true, sendMsg := some (bytesOf b), sendFor := s.nsent + 1, sendAbort := false })) = clo (cancel { s with nsent := s.nsent + 1 } c.id) :=
+            have e1 : clo (setCtx { (cancel { s with nsent := s.nsent + 1, sent := s.sent ++ [(s.nsent + 1, bytesOf b)] } c.id) with sendQ := (cancel { s with nsent := s.nsent + 1, sent := s.sent ++ [(s.nsent + 1, bytesOf b)] } c.id).sendQ ++ [c.id] } c.id (fun y => { y with reqID := s.nsent + 1, queued := true, sendMsg := some (bytesOf b), sendFor := s.nsent + 1, sendAbort := false })) = clo (cancel { s with nsent := s.nsent + 1, sent := s.sent ++ [(s.nsent + 1, bytesOf b)] } c.id) :=
               setCtx_clo _ c.id _ (fun y => ⟨rfl, rfl⟩)
             rw [e1, cancel_clo]
             exact hclo
